@@ -57,6 +57,9 @@ func qualifier(p *types.Package) string {
 // typeKey is a canonical name for a type under the current substitution.
 func (e *TEnv) typeKey(t types.Type) string {
 	t = e.resolve(t)
+	if el, ok := isSeqType(t); ok {
+		return "seq[" + e.typeKey(el) + "]"
+	}
 	switch tt := t.(type) {
 	case *types.Named:
 		s := ""
@@ -228,8 +231,32 @@ func (e *TEnv) scalarSort(t types.Type) Sort {
 	return ls[0].Sort
 }
 
+// seq types: spec-only sequence types (ghost fields), one leaf of array sort
+var seqTypes = map[string]*types.Named{}
+
+func seqType(elem types.Type, key string) *types.Named {
+	if n, ok := seqTypes[key]; ok {
+		return n
+	}
+	tn := types.NewTypeName(0, nil, "seq["+key+"]", nil)
+	n := types.NewNamed(tn, types.NewSlice(elem), nil)
+	seqTypes[key] = n
+	return n
+}
+
+func isSeqType(t types.Type) (types.Type, bool) {
+	n, ok := t.(*types.Named)
+	if !ok || n.Obj().Pkg() != nil || !strings.HasPrefix(n.Obj().Name(), "seq[") {
+		return nil, false
+	}
+	return n.Underlying().(*types.Slice).Elem(), true
+}
+
 func (e *TEnv) leaves(t types.Type) []Leaf {
 	t = e.resolve(t)
+	if el, ok := isSeqType(t); ok {
+		return []Leaf{{Path: "", Sort: ArraySort(e.IntS(), e.scalarSort(el)), Type: t}}
+	}
 	if isOpaqueNamed(t) {
 		return []Leaf{{Path: "", Sort: e.d.Sort("U_" + sanitizeName(e.typeKey(t))), Type: t}}
 	}
@@ -289,6 +316,10 @@ func sanitizeName(s string) string {
 
 // zeroTerm returns the zero value of a leaf sort/type.
 func (e *TEnv) zeroLeaf(l Leaf) *Term {
+	if l.Sort.IsArray() {
+		_, es := l.Sort.ArrayParts()
+		return ConstArray(l.Sort, e.zeroLeaf(Leaf{Sort: es}))
+	}
 	switch {
 	case l.Sort == SBool:
 		return TFalse
